@@ -6,33 +6,40 @@
    start with a request head and whose server bytes start with a response head,
        outs (map wire tr) = spec_outs tr
    for EVERY partition, EVERY ISN (incl. wrapping ones) and EVERY arrival order.
-   The unchanged code does not satisfy it: see the four *_refuted theorems (genuine, unrepaired
-   defects).  What is proved is the statement on the complement of those four classes:
+   Three of the original defects are repaired in /repo (exact retransmission, client half-close,
+   wrapping sequence space: see the *_former_witness_agrees theorems); what is left are the classes
+   of Spec/StreamSpec.v `known`, each with a *_refuted witness.  What is proved is the statement
+   on the complement of those classes:
 
    C09_reordered  known tr = false -> model = SPEC, for all head parsers that are prefix-stable
                  (a head stays the same head when bytes follow it) and accept nothing shorter than
-                 4 bytes; all partitions, ALL ARRIVAL ORDERS, any number of interleaved connections
-                 up to the cache capacity, any interleaving of the two directions, anything at all
-                 after a head was reported.  `known tr = false` (Spec/StreamSpec.v) says, for each
-                 direction until its head is reported: every data segment has a sequence number
-                 above the ISN (wrap), carries no byte already received (dup), and after its
-                 arrival EITHER no hole is open OR the received bytes concatenated across the hole
-                 are not accepted by the head parser (gap); and no client data segment carries
-                 FIN/RST before both heads are reported (fin).  Decidable on the trace and parser.
+                 4 bytes; all partitions, ALL ARRIVAL ORDERS, EVERY ISN including those whose
+                 sequence space wraps inside the head, any number of interleaved connections up to
+                 the cache capacity, any interleaving of the two directions, anything at all after
+                 a head was reported.  `known tr = false` says, for each direction until its head
+                 is reported: every data segment starts less than 2^31 - 1 bytes beyond the ISN
+                 (far: the limit of 32-bit serial arithmetic), carries no byte already received
+                 unless it is an exact retransmission (dup), and after its arrival EITHER no hole
+                 is open OR the bytes concatenated across the hole are not accepted by the head
+                 parser OR the gap-free prefix is accepted too (gap); and no client data segment
+                 carries RST, or FIN while the request is unreported, before both heads are
+                 reported (fin).  Decidable on the trace and the parser.
    C09_reordered_http1  the same for the HTTP/1 recogniser of Model/HttpRecog.v with NO hypothesis
                  on the parser left: prefix stability is proved for it (RecogProofs.v
                  recog_req_stable / recog_resp_stable).
-   C09_inorder   the earlier, parser-agnostic theorem: under the STRICT classes (every arrival that
-                 is not the next in-order segment is flagged: known_strict) model = SPEC for ALL
-                 parsers with the 4-byte minimum only, no stability needed.
+   C09_inorder   the parser-agnostic theorem: under the STRICT classes (known_strict: every arrival
+                 that is not the next in-order segment, or whose raw sequence number is not above
+                 the ISN, is flagged) model = SPEC for ALL parsers with the 4-byte minimum only.
    C09_once / C09_once_reordered   at most once per connection and only on a packet of the sending
                  direction (of the SPEC for every trace: C09_spec_once, C09_spec_direction).
    C09_rebuild_order_invariant / C09_rebuild_any_order   what the model rebuilds does not depend
-                 on arrival order when sequence numbers are distinct.
-   STILL PARTIAL: the four known classes are genuine defects and stay excluded (witnesses below);
-   for parsers other than the HTTP/1 recogniser prefix stability is a hypothesis (for the real
-   HTTP/1 parser it is the content of C05, for HTTP/2 it is not established and HTTP/2 traffic is
-   not generated); sequence numbers of one direction must not wrap before its head is reported. *)
+                 on arrival order when the stored sequence numbers are distinct and lie within 2^31
+                 of one reference point (then every choice of sort base orders them alike).
+   STILL PARTIAL: gap (no contiguity check; needs the server ISN, which the code does not record),
+   dup (re-segmented retransmissions) and fin (RST / early FIN) are genuine defects and stay
+   excluded; far is the representational limit of 32-bit sequence numbers; for parsers other than
+   the HTTP/1 recogniser prefix stability is a hypothesis (for the real HTTP/1 parser it is the
+   content of C05, for HTTP/2 it is not established and HTTP/2 traffic is not generated). *)
 From Coq Require Import List NArith Bool.
 From Coq Require Import Strings.Byte.
 From HN Require Import Base.Bytes Base.Cache Base.Tcp Model.HttpFlow Model.HttpRecog Spec.StreamSpec
@@ -167,17 +174,18 @@ Check C09_once_reordered :
     Forall2 dir_ok tr (outs recog_req recog_resp cap (map wire tr)).
 Print Assumptions C09_once_reordered.
 
-(* the hypotheses of C09_reordered are satisfiable on a genuinely reordered input: the request's
+(* the hypotheses of C09_reordered are satisfiable on a genuinely reordered input whose sequence
+   space wraps inside the head (client ISN = 2^32 - 10): the request's
    three segments arrive in the order 3, 2, 1 (a hole is open after the first and second arrival, the
    squeezed bytes do not parse), the response's two segments in the order 2, 1; the strict classes
    flag this trace, the known-defect classes do not, and both heads are reported *)
 Definition reorder_trace : list event :=
-  [ ev 1 true true false 4294967000 [];
+  [ ev 1 true true false 4294967286 [];
     ev 1 false true false 5000 [];
-    ev 1 true false false 4294967028 (bs "Accept: b" ++ crlfcrlf);
+    ev 1 true false false 18 (bs "Accept: b" ++ crlfcrlf);
     ev 1 false false false 5018 (bs "Server: x" ++ crlfcrlf);
-    ev 1 true false false 4294967017 (bs "Host: a" ++ crlf ++ bs "X:");
-    ev 1 true false false 4294967001 (bs "GET / HTTP/1.1" ++ crlf);
+    ev 1 true false false 7 (bs "Host: a" ++ crlf ++ bs "X:");
+    ev 1 true false false 4294967287 (bs "GET / HTTP/1.1" ++ crlf);
     ev 1 false false false 5001 (bs "HTTP/1.1 200 OK" ++ crlf) ].
 Example C09_reordered_nonvacuous :
   (forall e, In e reorder_trace -> e_seq e < two32) /\
@@ -250,25 +258,28 @@ Print Assumptions C09_once.
 
 (* ---- out-of-order arrival: the rebuilt stream does not depend on the arrival order ---- *)
 Theorem C09_rebuild_order_invariant :
-  forall l l' : list tcpdata,
-    Permutation l l' -> NoDup (map td_seq l) -> full_data l = full_data l'.
+  forall (r : N) (l l' : list tcpdata),
+    Permutation l l' -> r < two32 -> win r l -> NoDup (map td_seq l) -> full_data l = full_data l'.
 Proof. exact rebuild_order_invariant. Qed.
 Check C09_rebuild_order_invariant :
-  forall l l' : list tcpdata,
-    Permutation l l' -> NoDup (map td_seq l) -> full_data l = full_data l'.
+  forall (r : N) (l l' : list tcpdata),
+    Permutation l l' -> r < two32 -> win r l -> NoDup (map td_seq l) -> full_data l = full_data l'.
 Print Assumptions C09_rebuild_order_invariant.
 
 (* all segments of a gap-free stream stored, in any arrival order (data0 = the SYN's own empty
-   segment for the client direction, nothing for the server direction) *)
+   segment for the client direction, nothing for the server direction); `near`: the stream does not
+   wrap and stays within 2^31 of the ISN (StreamReorder.v handles wrapping sequence numbers) *)
 Theorem C09_rebuild_any_order :
   forall (isn : N) (data0 : list tcpdata) (ps : list bytes) (stored : list tcpdata),
     data0_ok isn data0 -> Forall (fun p => p <> []) ps ->
+    isn < two32 -> near isn (data0 ++ chain_tds (isn + 1) ps) ->
     Permutation stored (data0 ++ chain_tds (isn + 1) ps) ->
     full_data stored = concat ps.
 Proof. exact rebuild_any_order. Qed.
 Check C09_rebuild_any_order :
   forall (isn : N) (data0 : list tcpdata) (ps : list bytes) (stored : list tcpdata),
     data0_ok isn data0 -> Forall (fun p => p <> []) ps ->
+    isn < two32 -> near isn (data0 ++ chain_tds (isn + 1) ps) ->
     Permutation stored (data0 ++ chain_tds (isn + 1) ps) ->
     full_data stored = concat ps.
 Print Assumptions C09_rebuild_any_order.
@@ -303,16 +314,29 @@ Qed.
 
 (* ---- the known-defect classes: each is inhabited by a trace inside the specification's domain on
    which the model (= the implementation, checked on every run) contradicts the specification ---- *)
-Theorem C09_wrap_refuted :
+Theorem C09_far_refuted :
+  spec_wf recog_req recog_resp far_trace = true /\
+  known_classes recog_req recog_resp far_trace = (true, false, false, false) /\
+  outs recog_req recog_resp 10 (map wire far_trace) <> spec_outs recog_req recog_resp far_trace.
+Proof. exact far_refuted. Qed.
+Check C09_far_refuted :
+  spec_wf recog_req recog_resp far_trace = true /\
+  known_classes recog_req recog_resp far_trace = (true, false, false, false) /\
+  outs recog_req recog_resp 10 (map wire far_trace) <> spec_outs recog_req recog_resp far_trace.
+Print Assumptions C09_far_refuted.
+
+(* ISN = 2^32 - 10 with the head wrapping past 2^32 was the witness of the wrap class before fix
+   C09-seq-wrap; it is now outside every class and model = SPEC on it *)
+Theorem C09_wrap_former_witness_agrees :
   spec_wf recog_req recog_resp wrap_trace = true /\
-  known_classes recog_req recog_resp wrap_trace = (true, false, false, false) /\
-  outs recog_req recog_resp 10 (map wire wrap_trace) <> spec_outs recog_req recog_resp wrap_trace.
-Proof. exact wrap_refuted. Qed.
-Check C09_wrap_refuted :
+  known_classes recog_req recog_resp wrap_trace = (false, false, false, false) /\
+  outs recog_req recog_resp 10 (map wire wrap_trace) = spec_outs recog_req recog_resp wrap_trace.
+Proof. exact wrap_former_witness_agrees. Qed.
+Check C09_wrap_former_witness_agrees :
   spec_wf recog_req recog_resp wrap_trace = true /\
-  known_classes recog_req recog_resp wrap_trace = (true, false, false, false) /\
-  outs recog_req recog_resp 10 (map wire wrap_trace) <> spec_outs recog_req recog_resp wrap_trace.
-Print Assumptions C09_wrap_refuted.
+  known_classes recog_req recog_resp wrap_trace = (false, false, false, false) /\
+  outs recog_req recog_resp 10 (map wire wrap_trace) = spec_outs recog_req recog_resp wrap_trace.
+Print Assumptions C09_wrap_former_witness_agrees.
 
 Theorem C09_gap_refuted :
   spec_wf recog_req recog_resp gap_trace = true /\
